@@ -22,7 +22,7 @@ import (
 
 // c20Judge compares one FileNamingFormat result with the prediction; class "" = agrees.
 func c20Judge(tpl, id string, got c20Result, wantErr bool, wantS string) (class, msg string) {
-	where := fmt.Sprintf("FileNamingFormat(%q, %q)", tpl, id)
+	where := c20Where(tpl, id)
 	switch {
 	case got.panic != "":
 		return "name:panic", fmt.Sprintf("%s panicked: %s; the specification %s", where, got.panic, c20Want(wantErr, wantS))
@@ -30,14 +30,14 @@ func c20Judge(tpl, id string, got c20Result, wantErr bool, wantS string) (class,
 		return "name:missing-error", fmt.Sprintf("%s = %q; the specification rejects the template", where, got.s)
 	case !wantErr && got.err:
 		return "name:spurious-error", fmt.Sprintf("%s was rejected; the specification renders %q", where, wantS)
-	case !wantErr && got.s != wantS:
+	case !wantErr && !c20Same(tpl+id, got.s, wantS):
 		return "name:differs", fmt.Sprintf("%s = %q; the specification renders %q", where, got.s, wantS)
 	}
 	return "", ""
 }
 
 // c20Again evaluates one ordinary case once more (sequentially) and compares with the prediction.
-func c20Again(index int, tc kit.M, tpls []c20Template, pass string) []kit.Verdict {
+func c20Again(index int, tc kit.M, tpls []c20Template, firstConv c20Convs, pass string) []kit.Verdict {
 	id := c20Text(tc["id"])
 	names := kit.List(tc["n"])
 	var bad []kit.Verdict
@@ -61,10 +61,12 @@ func c20Again(index int, tc kit.M, tpls []c20Template, pass string) []kit.Verdic
 			fail(class, msg)
 		}
 	}
-	camel, pv := c20Conv(func() string { return stringx.From(id).ToCamel() })
-	steps++
-	if pv != "" {
-		fail("camel:panic", fmt.Sprintf("stringx.From(%q).ToCamel() panicked: %s", id, pv))
+	conv := c20Convert(id)
+	camel := conv.camel
+	steps += 2
+	c20JudgeConv(tc, id, conv, fail)
+	if conv != firstConv {
+		fail("conversion:differs", fmt.Sprintf("ToCamel/ToSnake of %q gave %+v, in the first pass %+v", id, conv, firstConv))
 	}
 	back, pv := c20Conv(func() string { return stringx.From(camel).ToSnake() })
 	steps++
